@@ -260,7 +260,22 @@ def decide(inputs, bads, rt=None, extra_pre=(), witnesses=(), check_obligations=
         elif r == "unsat":
             d.verdict = "unsat"
         else:
-            d.verdict = "unknown"
+            # fallback: the disjunction was too hard as one query - decide the violation conditions one by one
+            d.verdict = "unsat"
+            for lab, b in live:
+                s1 = _solver(pre, timeout_ms or SOLVER_TIMEOUT_MS)
+                s1.add(zb(b))
+                d.n_queries += 1
+                r1 = str(s1.check())
+                if r1 == "sat":
+                    m = s1.model()
+                    d.verdict = "sat"
+                    d.model = inputs.eval(m)
+                    d.which = [lab]
+                    break
+                if r1 != "unsat":
+                    d.verdict = "unknown"
+                    break
     # ---- coverage witnesses (reachability of the interesting situations)
     for lab, cond in witnesses:
         cb = conc_bool(cond)
